@@ -431,6 +431,7 @@ class Run:
             scal = ["deform", "bright_avg", "emodulus"] + (
                 [TMP] if self.temp is not None else [])
             sgot = {f: list(c[f][:]) for f in scal}
+            smx = c[TMP].max() if self.temp is not None and nv else None
             spar = {f: (list(P[f][:]) if L > 1 else list(P[f]))
                     for f in scal}
             ngot = {f: [c[f][j] for j in range(nv)]
@@ -458,6 +459,19 @@ class Run:
                                     in zip(got, view)]),
                               tag + "temporary feature follows the root "
                               "events", info={"level": L})
+                    if smx is not None:
+                        r = SFloat.lift(smx)
+                        vs = [SFloat.lift(g) for g in got]
+                        alln = z3.And([v.nan for v in vs])
+                        eng.prove(z3.And(r.nan == alln, z3.Implies(
+                            z3.Not(alln), z3.And(
+                                z3.And([z3.Or(v.nan, r.v >= v.v)
+                                        for v in vs]),
+                                z3.Or([z3.And(z3.Not(v.nan), r.v == v.v)
+                                       for v in vs])))),
+                            tag + "reported maximum of the temporary "
+                            "feature == maximum of its current values",
+                            info={"level": L})
                 elif feat == "emodulus":
                     eng.prove(got == [Tok(("emodulus", self.w.calcver,
                                            self.w.imgver), rid)
@@ -557,6 +571,8 @@ def cases(tier, seed):
         ("d3 B2 T3 R", H(N, 3, B(2), F, T(3), F, R, F)),
         ("d2 CI C CI", H(N, 2, R, F, "CI", F, C, F, "CI", F)),
         ("d1 CI", H(N, 1, B(0), F, "CI", F)),
+        # temporary feature replaced while the parent filter stays as it is
+        ("d1 T1 T1", H(N, 1, R, F, T(1), F, T(1), F)),
     ]
     if tier == "thorough":
         out += [
@@ -671,6 +687,12 @@ def concrete(p, vals):
                 if feat == TMP and not eq(got, np.array(temp)[view]):
                     fails.append(("temporary", "level %d: %r != %r" % (
                         L, got, np.array(temp)[view])))
+                if feat == TMP and len(got) and not np.all(np.isnan(got)):
+                    mx = float(c[feat].max())
+                    if mx != float(np.nanmax(got)):
+                        fails.append(("summary", "level %d: %s.max() reports "
+                                      "%r, the current values are %r" % (
+                                          L, feat, mx, got.tolist())))
             for feat in ("image", "mask", "contour"):
                 for j, rid in enumerate(view):
                     if not eq(c[feat][j], data[feat][rid]):
